@@ -41,6 +41,11 @@ func buildInputs(ctx *core.Ctx, paths []ModelPath, withRest bool) ([]Input, map[
 	add(TagSequences(ctx.Thorough(), ctx.Seed, ctx.Pick(40000, 150000)))
 	add(TagBodies())
 	add(StringHazards(ctx.Pick(400, 4000), ctx.Seed))
+	// round 2: whole classes behind the seeded changes that were missed
+	add(UnicodeHazards())
+	add(AttrHazards())
+	add(ValueKindHazards())
+	add(LongTailInputs())
 	// (c) prefixes and (d) token mutations of the corpus and of generated files
 	files, err := CorpusFiles()
 	if err != nil {
@@ -51,6 +56,16 @@ func buildInputs(ctx *core.Ctx, paths []ModelPath, withRest bool) ([]Input, map[
 		add(Prefixes("prefix/"+name, text, ctx.Pick(4000, 0), r))
 		add(TokenMutations("mutation/"+name, text, ctx.Pick(1200, 0), r))
 	}
+	bodies := []string{"", hdr + "{$x}\n{/template}\n", "{namespace n}", "hello", "{", "{$x", "{$x}", "}", "{namespace n}\n/** d */\n{template .t}\n{/template}\n"}
+	for _, name := range sortedKeys(files) {
+		if len(files[name]) < 4096 {
+			bodies = append(bodies, files[name])
+		}
+	}
+	for _, v := range GeneratedFiles(6, ctx.Seed+1) {
+		bodies = append(bodies, v.Text(), strings.TrimSuffix(v.Text(), "\n"))
+	}
+	add(SpecialStartInputs(bodies))
 	for i, v := range GeneratedFiles(ctx.Pick(60, 200), ctx.Seed) {
 		add(Prefixes(fmt.Sprintf("prefix/gen%d", i), v.Text(), 0, r))
 		add(TokenMutations(fmt.Sprintf("mutation/gen%d", i), v.Text(), ctx.Pick(40, 0), r))
